@@ -175,6 +175,23 @@ def run(chk):
           tj[0].where, tj[0]["q"], "kinds tested: %s" % order)
     r4.require(5, "kind obligations")
 
+    # ------------------------------------------------------------------ R18.5 the converter keeps no state between calls
+    r5 = chk.rule("R18.5", "the JSON reader and writer keep no state between calls: no object with static or thread storage duration (other than compile-time constants) is declared in "
+                           "chaiscript::json / json_wrap",
+                  "from_json(to_json(v)) == v for every call: what an earlier, possibly rejected, input left behind cannot become part of a later result")
+    nst = 0
+    for key, st_ in sorted(prog.statics.items(), key=lambda kv: (kv[1]["file"], kv[1]["line"])):
+        if not (st_["q"].startswith("chaiscript::json::") or st_["q"].startswith("chaiscript::json_wrap") or "utility/json" in st_["file"]):
+            continue
+        nst += 1
+        t = st_["type"].strip()
+        ok = bool(st_.get("constexpr")) or (st_.get("const") and ("char" in t or t.replace("const ", "") in ("int", "bool", "double", "unsigned long", "size_t")))
+        r5.ob("static %s : %s" % (strip_targs(st_["q"]), t[:50]), ok, "%s:%d" % (st_["file"], st_["line"]), st_.get("infn", ""),
+              "%s %s survives the call that wrote it: after an input is rejected half-way (exception), the next conversion on this thread starts from what was left in it" % (
+                  "thread_local" if st_.get("tls") else "static", st_["q"]))
+    r5.ob("static/thread_local objects in the JSON converter: %d, all compile-time constants" % nst, True, "", "", "")
+    r5.require(1, "obligation")
+
 
 # =============================================================================== helpers
 
